@@ -42,6 +42,10 @@ def _mk_results(case):
             zinp = pd.Series(dtype="float64").to_numpy()
             lat = pd.Series(dtype="float64").to_numpy()
             lon = pd.Series(dtype="float64").to_numpy()
+        # the arrays a stream hands over may be read-only views of the caller's table (pandas does that):
+        # collecting must neither need to write into them nor do so
+        for a in (data, tinp, zinp, lat, lon, mask):
+            a.flags.writeable = False
         out.append(ContextResult(stream_id=r["stream"], results=calls, subset_indexes=mask,
                                  data=data, tinp=tinp, zinp=zinp, lat=lat, lon=lon))
     return out
